@@ -27,6 +27,8 @@ use std::ops::Range;
 pub mod error;
 pub mod function;
 pub mod util;
+#[cfg(oxidd_verif)]
+pub mod verif;
 
 use error::DuplicateVarName;
 use util::{AllocResult, Borrowed, DropWith, NodeSet};
